@@ -17,7 +17,7 @@ from ..engine import Finding
 
 ID = 'C14'
 TITLE = 'eq is a NaN-aware, type-strict equivalence on values, containers and pandas'
-LEAN_FILES = ['Basic', 'Sort', 'Eq', 'EqDriver', 'EqLemmas', 'EqDictLemmas', 'EqSame', 'C14']
+LEAN_FILES = ['Basic', 'Sort', 'Eq', 'EqR', 'EqDriver', 'EqLemmas', 'EqDictLemmas', 'EqSame', 'EqRLemmas', 'ResDec', 'C14']
 RULE = ('distinct (x, y) protocol lines with x and y spelled differently on which eq returned a boolean '
         '(pairs of identical atoms are not counted)')
 TRUSTED = ['correspondence harness (pv.engine, pv.proto) and the generators / decoder of pv.props.c14',
